@@ -19,7 +19,7 @@ def run(ctx):
     rng = ctx.rng
     ctx.rule = ("(i) fast_intersection on random COO triples and label vectors (1-6 classes, 0-60% unlabelled) vs the Lean model, exact "
                 "attenuation factors; (ii) UMAP(target_weight=w).fit(X, y).graph_ vs the model's categoricalIntersection applied to the "
-                "unsupervised graph of the same data, for w in {0,.25,.5,.9,.99,1}, unique=True with duplicated rows, label renamings (negative, permuted, adjacent integers beyond 2^24 / 2^31 / 2^40), and the "
+                "unsupervised graph of the same data, for w in {0,.25,.5,.9,.99,1}, unique=True with duplicated rows, non-default set_op_mix_ratio / local_connectivity, label renamings (negative, permuted, adjacent integers beyond 2^24 / 2^31 / 2^40), and the "
                 "property's clauses on the real graphs (symmetry, range, support subset, unit edge, renaming invariance, separation at "
                 "w=1); also checks that float exp(-1e12) underflows to 0; non-trivial = at least 2 classes and one unlabelled sample")
     ctx.assumptions += ["sklearn.preprocessing.normalize(norm='max') by contract", "np.exp(-1e12) == 0.0 (asserted each run)"]
@@ -70,6 +70,10 @@ def run(ctx):
         w = [0.0, 0.25, 0.5, 0.9, 0.99, 1.0][t % 6]
         k = int(rng.integers(4, 10))
         kw = dict(n_neighbors=k, random_state=5, n_epochs=0, init="random")
+        if t % 3 == 2:
+            # graph-stage options of the estimator must not leak into the supervision step
+            kw["set_op_mix_ratio"] = float(rng.choice([0.3, 0.75]))
+            kw["local_connectivity"] = float(rng.choice([1.0, 2.0]))
         uniq = (t % 4 == 1)
         if uniq:
             # unique=True: the graph lives on the distinct rows in np.unique's (sorted) order; duplicated rows share a label
@@ -81,7 +85,8 @@ def run(ctx):
             _, uidx = np.unique(X, return_index=True, axis=0)
         else:
             uidx = np.arange(n)
-        case = {"n": n, "k": k, "target_weight": w, "unique": bool(uniq), "labels": y.tolist(), "X": X.tolist()}
+        case = {"n": n, "k": k, "target_weight": w, "unique": bool(uniq), "set_op_mix_ratio": kw.get("set_op_mix_ratio", 1.0),
+                "local_connectivity": kw.get("local_connectivity", 1.0), "labels": y.tolist(), "X": X.tolist()}
         y_in = y
         y = y[uidx]              # label of each graph vertex
         n = len(uidx)
